@@ -257,8 +257,9 @@ Section Auth.
 
   (** * Histories *)
   Inductive op :=
-  | ORegGov (a : bytes) (chains addrs : list bytes)   (* RegisterRelayerProposal: ValidateBasic at submission, handler on passing *)
-  | ORegRaw (a : bytes) (chains addrs : list bytes)   (* InitGenesis: RegisterRelayers without validation *)
+  | ORegGov (a : bytes) (chains addrs : list bytes)   (* RegisterRelayerProposal: ValidateBasic at submission, handler on passing;
+                                                         also a genesis relayer checked by GenesisState.Validate (same checks) *)
+  | ORegRaw (a : bytes) (chains addrs : list bytes)   (* InitGenesis on a genesis file that was not validated *)
   | OUpdate (m : update_msg)
   | ORecv (m : recv_msg)
   | OAck (m : ack_msg)
